@@ -230,6 +230,19 @@ def check(ctx):
                     init = [d for d in defs.get(var, []) if d.kind == "assign"]
                     ok = len(init) == 1 and not lexically_inside(init[0].stmt, w)
                     ctx.ob("R1", st, f"the budget `{var}` is initialised once, outside the loop", ok, key=f"{short_q}|budget-init|{test}", where=loc(w))
+                    # ... and it must be large enough for what the loop is for: every retry wraps ONE segment, and one line
+                    # can hold any number of them (`a; b; c; ...`, `a && b && ...`).  A budget computed from the number of
+                    # lines alone rejects a one-line chain of a dozen bare commands that the explicit form accepts.
+                    if init:
+                        iv = init[0].value
+                        inp_names = {a_.arg for a_ in fn.args.args}
+                        for _ in range(3):  # plain copies / slices / strips of the input text
+                            for n_, ds_ in defs.items():
+                                if n_ not in inp_names and ds_ and all(d_.kind == "assign" and d_.value is not None and not any(isinstance(c_, ast.Call) and last_attr(c_) in ("splitlines", "split", "source_lines") for c_ in ast.walk(d_.value)) and {x_.id for x_ in ast.walk(d_.value) if isinstance(x_, ast.Name) and isinstance(x_.ctx, ast.Load)} & inp_names and {x_.id for x_ in ast.walk(d_.value) if isinstance(x_, ast.Name) and isinstance(x_.ctx, ast.Load)} <= inp_names | {"len"} for d_ in ds_):
+                                    inp_names.add(n_)
+                        char_terms = [c_ for c_ in ast.walk(iv) if isinstance(c_, ast.Call) and call_name(c_) == "len" and c_.args and isinstance(c_.args[0], ast.Name) and c_.args[0].id in inp_names]
+                        line_terms = [c_ for c_ in ast.walk(iv) if isinstance(c_, ast.Call) and call_name(c_) == "len" and c_.args and not isinstance(c_.args[0], ast.Name)]
+                        ctx.ob("R1", st, f"the budget `{short(iv, 50)}` grows with the length of the input (a bound on the number of segments to wrap), not with the number of lines alone", bool(char_terms), key=f"{short_q}|budget-by-lines-only", where=loc(init[0].stmt), detail=f"terms: {[short(c_) for c_ in line_terms + char_terms]}")
             else:  # consumer
                 cons = ent["consume"]
 
